@@ -46,4 +46,3 @@ func helperMain() {
 	_, _ = os.Stat(markEnd)
 	os.Exit(rc)
 }
-
